@@ -3,6 +3,10 @@ package interpreter
 import "github.com/libsv/go-bt/v2/bscript/interpreter/scriptflag"
 
 // State a snapshot of a threads state during execution.
+//
+// LastCodeSeparatorIdx is the index of the opcode following the last executed
+// OP_CODESEPARATOR of the current script, which is where the script code used
+// for signature checks begins. It is 0 if none has been executed.
 type State struct {
 	DataStack            [][]byte
 	AltStack             [][]byte
